@@ -24,7 +24,9 @@ pub fn content(kind: &str, lines: &[Vec<String>], rng: &mut Rng) -> (Vec<Vec<Str
     for (i, l) in lines.iter().enumerate() {
         if i == 1 && rng.chance(1, 3) { text.push_str("# a comment line\n\n"); }
         let sep = if kind == "file" { "," } else { ", " };
-        text.push_str(&format!("{}, {}\n", l[1], l[2..].join(sep)));
+        // a value with a comma is written quoted, as save_policy writes it
+        let q: Vec<String> = l[2..].iter().map(|v| if v.contains(',') { format!("\"{}\"", v) } else { v.clone() }).collect();
+        text.push_str(&format!("{}, {}\n", l[1], q.join(sep)));
     }
     if rng.chance(1, 4) { text.push_str("# trailing comment\n"); }
     (vec![], text)
@@ -34,15 +36,15 @@ pub fn run(rec: &mut Recorder, w: &mut World, tier: &str, seed: u64) {
     let mut rng = Rng::new(seed);
     let m = model();
     let n_store = (if tier == "thorough" { 600 } else { 60 }) * rec.budget as usize;
-    let vals = ["a", "b"];
+    let vals = ["a", "b", "a,x"];
     // every filter: per leading field empty / a / b / a value that matches nothing; lengths 0..arity
     let mut filters: Vec<Vec<String>> = vec![vec![]];
     for len in 1..=3 {
         let mut idx = vec![0usize; len];
         loop {
-            filters.push(idx.iter().map(|&i| ["", "a", "b", "zz"][i].to_string()).collect());
+            filters.push(idx.iter().map(|&i| ["", "a", "b", "zz", "a,x"][i].to_string()).collect());
             let mut k = len; let mut done = false;
-            loop { if k == 0 { done = true; break; } k -= 1; idx[k] += 1; if idx[k] < 4 { break; } idx[k] = 0; }
+            loop { if k == 0 { done = true; break; } k -= 1; idx[k] += 1; if idx[k] < 5 { break; } idx[k] = 0; }
             if done { break; }
         }
     }
@@ -92,6 +94,33 @@ pub fn run(rec: &mut Recorder, w: &mut World, tier: &str, seed: u64) {
                     let s = rec.exec(w, "e.save");
                     if s != "panic" { rec.fail("filtered-save-allowed", format!("{}: after a failed second filtered load save_policy returned {}", descr, s)); }
                     rec.count("failed-second-filtered-load");
+                    rec.count(&format!("adapter:{}", kind));
+                    rec.nontrivial_case(&descr);
+                    continue;
+                }
+                // the store is edited and saved between two filtered loads: full load, an addition and a removal with auto-save
+                // off, save_policy, the same filtered load again — it selects from what is stored now
+                if rng.chance(1, 4) {
+                    let l0 = rec.exec(w, "e.load");
+                    rec.exec(w, "e.auto\tsave\tfalse");
+                    let mut lines2 = lines.clone();
+                    let newr = sv(&["p", "p", *rng.pick(&vals), "b", "zz2"]);
+                    rec.exec(w, &MOp::Add("p".into(), "p".into(), newr[2..].to_vec()).line());
+                    // p lines stay before g lines, p before p2 (the order save_policy writes and get_all_policy lists)
+                    let pos = lines2.iter().position(|l| !(l[0] == "p" && l[1] == "p")).unwrap_or(lines2.len());
+                    lines2.insert(pos, newr);
+                    if let Some(i) = lines2.iter().position(|l| l[0] == "g" && l[1] == "g") { let gone = lines2.remove(i); rec.exec(w, &MOp::Rm("g".into(), "g".into(), gone[2..].to_vec()).line()); }
+                    let s0 = rec.exec(w, "e.save");
+                    let r5 = rec.exec(w, &format!("e.loadf\t{}\t{}", enc_list(&fp), enc_list(&fg)));
+                    let got5 = rec.exec(w, "e.pol");
+                    let flag5 = rec.exec(w, "e.filtered");
+                    let mut wp = vec![]; let mut wg = vec![]; let mut left_out5 = false;
+                    for l in &lines2 { let f = if l[0] == "p" { &fp } else { &fg }; if keeps(f, &l[2..]) { if l[0] == "p" { wp.push(l.clone()) } else { wg.push(l.clone()) } } else { left_out5 = true; } }
+                    let want5 = format!("{} {}", enc_lists(&grp(&wp, ["p", "p2"])), enc_lists(&grp(&wg, ["g", "g2"])));
+                    if l0 != "ok" || s0 != "ok" || r5 != "ok" { rec.fail("filtered-load-failed", format!("{}: load -> {}, edit, save -> {}, second filtered load -> {}", descr, l0, s0, r5)); }
+                    else if got5 != want5 { rec.fail("wrong-subset", format!("{}: after load, an edit and save, the same filtered load gives {} but the filter selects {} from the edited store", descr, got5, want5)); }
+                    else if flag5 != bool_s(left_out5) { rec.fail("wrong-is-filtered", format!("{}: after the edit is_filtered = {} but left_out = {}", descr, flag5, left_out5)); }
+                    rec.count("filtered-load-after-edit-and-save");
                     rec.count(&format!("adapter:{}", kind));
                     rec.nontrivial_case(&descr);
                     continue;
